@@ -263,7 +263,7 @@ class SquaredExponential(CovarianceFunction):
         a = exp(theta[0])
         L = exp(theta[1:])
         A = (x - v[None, :]) / L[None, :] ** 2
-        return A.T, (a / L) ** 2
+        return A.T, diag((a / L) ** 2)
 
     def covariance_and_gradients(self, theta: ndarray):
         a = exp(theta[0])
